@@ -420,7 +420,8 @@ def gen_violating(rng, name, content):
            "header_line_removed", "header_frame_short", "header_slashes", "header_after_blank", "header_field_removed",
            "stray_eol_preproc", "stray_eol_preproc"]
     # violations at extreme positions: as late as possible in the longest function / in the file, after a long preamble
-    ops += ["comment_in_func_late", "decl_late", "late_include", "long_preamble", "comment_in_func_late", "upper_decl", "upper_global"]
+    ops += ["comment_in_func_late", "decl_late", "late_include", "long_preamble", "comment_in_func_late", "upper_decl", "upper_global",
+            "comment_run"]
     if name.endswith(".h"):
         # include-guard mutations (4.14)
         ops += ["guard_no_define", "guard_no_define", "guard_wrong_symbol", "guard_lower", "guard_doubled", "decl_before_guard",
@@ -491,6 +492,16 @@ def gen_violating(rng, name, content):
     if op == "upper_global":
         lines[12:12] = ["int\tBadGlobal;", "char\t*g_Names;", ""]
         return "\n".join(lines), op
+    if op == "comment_run":
+        # a very long run of one-line comments between two statements (also between a declaration and its brace)
+        cand = [j for j, ln in enumerate(lines) if j > 11 and (ln == "{" or (ln.startswith("#") and not lines[j - 1].rstrip().endswith("\\"))
+                                                              or (ln[:1].isalpha() and ln.endswith(")")))]
+        j = cand[rng.randrange(len(cand))] if cand else 12
+        n = rng.choice([70, 130, 130, 260])
+        before_brace = lines[j] == "{"
+        lines[j:j] = [f"// filler {k}" for k in range(n)]
+        # between a declaration and its brace the declaration statement absorbs part of the run: the count is only known elsewhere
+        return "\n".join(lines), (f"commentrun_brace{n}" if before_brace else f"comment_run{n}")
     if op == "late_include":
         lines += ["#include <string.h>", ""] if lines and lines[-1] == "" else ["", "#include <string.h>"]
         return "\n".join(lines), op
@@ -635,6 +646,7 @@ def specials():
                  "\tp = (char *)malloc(sizeof(char) * 3);\n\ta = -b + ~c - !a;\n\ta = sizeof(int) * sizeof b;\n"
                  "\twhile (a++ < 3)\n\t\t;\n\tif (a == 1\n\t\t&& b == 2)\n\t\tc = ft_x(1,\n\t\t\t\t2);\n"
                  "\tft_putstr(\"a\"\n\t\t\"b\");\n\t(*p)(a);\n\treturn (ft_x(a, b) + 3);\n")
+    out.append(("zoo_member.c", ok_func("zoo_member.c", body="\tft_last(l)->next = 0;\n\tft_last(l)->default = b && c;\n\tl->int = a;\n\treturn (0);\n"), "zoo"))
     out.append(("zoo_clean.c", ok_func("zoo_clean.c", body=zoo_clean), "zoo"))
     zoo_bad = ("\tint\ti;\n\tint\tj;\n\n\ti = j = 3;\n\ti++, j--;\n\ti = (i > 0) ? 1 : 2;\n\tfor (i = 0; i < 3; i++)\n\t\ti--;\n"
                "\tdo\n\t{\n\t\ti++;\n\t} while (i < 3);\n\tswitch (i)\n\t{\n\t\tcase 1:\n\t\t\tbreak ;\n\t\tdefault:\n\t\t\tbreak ;\n\t}\n"
